@@ -43,9 +43,9 @@ Clauses of DESIGN.md section 5/C03 not implemented here, and why:
 Not decided (other technique families): absence of out-of-bounds accesses in general, protozero's own varint bounds,
 termination / hangs, equivalence of assert-on and NDEBUG builds, decompressor internals (C09), STALE-L/F (run by C04).
 """
-from ..c03_util import (classify_edges, upper_bound, lower_bound, equals, truthy, reaches_unchecked, describe, roots,
-                        local_roots, starts_for, definitions, elem_of, sig, var_name, cmp_parts, strip_not, CursorFlow, UNCHECKED,
-                        helper_barriers, matching_conds, deep_roots)
+from ..c03_util import (classify_edges, upper_bound, lower_bound, equals, truthy, reaches_unchecked, describe, local_roots,
+                        starts_for, definitions, elem_of, sig, var_name, cmp_parts, CursorFlow, UNCHECKED, helper_barriers,
+                        matching_conds, deep_roots)
 from ..excflow import Esc, catch_alls, handler_entry_block, must_pass
 from ..errdisc import guards
 from ..flow import path_search
@@ -1094,7 +1094,7 @@ def _reads_exception_ptr(fn, cid):
 
 # ------------------------------------------------------------------------------------------------ G9 UTF-8 decode
 
-def g9_utf8(fb, R, selftest=False):
+def g9_utf8(fb, R):
     fns = fb.fns('osmium::io::detail::next_utf8_codepoint')
     if not fns:
         R.broken('next_utf8_codepoint not found')
@@ -1488,11 +1488,6 @@ class _Cases:
         b = pos[nid][0]
         return sorted(k for k in self.label_block if b in self.region(k))
 
-    def own_case_of(self, nid):
-        """the case label(s) from which nid is reached first (regions that include it, minus those that only fall into it)."""
-        names = self.case_of(nid)
-        return names
-
 
 def _builder_fields(fb):
     rec = fb.record(XMLP)
@@ -1539,21 +1534,6 @@ def _field_events(fb, fn, fields, depth=1):
                     if k2 in ('open', 'use'):
                         ev.append((k2, f2, c['id'], x2))
     return ev
-
-
-def _parent_field(fb, fn, ev, fields):
-    """field of the object builder a sub-builder is constructed on (argument `*m_x_builder`), for an open event."""
-    (_k, _f, _nid, mk) = ev
-    if not isinstance(mk, dict):
-        return None
-    for a in mk.get('args', []) or []:
-        if a is None:
-            continue
-        for x in fn.subtree(a):
-            n = fn.nodes[x]
-            if n.get('k') == 'member' and n.get('field') and n['name'] in fields and fn.is_this_member(x):
-                return n['name']
-    return None
 
 
 def ts_xml(fb, R):
@@ -1840,6 +1820,7 @@ def _selftest(fb, R):
         esc = Esc(fb)
         g1_g2_stringtable(fb, R, esc)
         g3_builder_lengths(fb, R)
+        g4_blobs(fb, R)
         g5_o5m(fb, R)
         g6_member_types(fb, R)
         g7_expat(fb, R, esc)
@@ -1852,7 +1833,18 @@ def _selftest(fb, R):
 
 SELFTESTS = [(r, 'c03_guards.cpp', _selftest) for r in (
     'G1-stringtable-access-is-at', 'G1-out_of_range-mapped', 'G2-stringtable-entry-length', 'G3-builder-string-length-checked',
-    'G5-o5m-section-end-checked', 'G5-o5m-reference-table-bounds', 'G5-o5m-bytes-available', 'G5-o5m-cursor-deref-end-checked',
+    'G4-blob-sizes-bounded', 'G5-o5m-section-end-checked', 'G5-o5m-reference-table-bounds', 'G5-o5m-bytes-available', 'G5-o5m-cursor-deref-end-checked',
     'G6-member-type-range-checked', 'G7-expat-callbacks-contained', 'G7-expat-exception-stored-and-parser-stopped',
     'G7-expat-entity-declarations-rejected', 'G7-expat-parse-error-rethrows-stored-first', 'G8-throws-std-exception',
     'G9-utf8-length-test-before-continuation', 'G9-utf8-case-reads-its-length', 'A1-who-may-abort')]
+
+
+def _selftest_xml(fb, R):
+    _SELFTEST[0] = True
+    try:
+        ts_xml(fb, R)
+    finally:
+        _SELFTEST[0] = False
+
+
+SELFTESTS += [('TS-sibling-builder-reset-first', 'c03_xml.cpp', _selftest_xml), ('TS-end-closes-builders', 'c03_xml.cpp', _selftest_xml)]
